@@ -79,7 +79,7 @@ theorem c14_consume (P : Prims) (E : Env) (K : KeyEnv) (ks : List Key) (headers 
     rcases h with h | h
     · simpa [guessKey, hf] using h
     · exact h
-  simp only [guessKey, bind_eq_ok, Bool.and_false, Bool.false_eq_true, if_false, pure_eq_ok] at key
+  simp only [guessKey, guessKeyBase, bind_eq_ok, Bool.and_false, Bool.false_eq_true, if_false, pure_eq_ok] at key
   obtain ⟨kid, hkid, k', hk', heq⟩ := key
   simp at heq
   exact ⟨kid, hkid, heq.1 ▸ hk', heq.2.symm⟩
@@ -90,7 +90,7 @@ theorem c14_produce (P : Prims) (E : Env) (K : KeyEnv) (ks : List Key) (headers 
     (k : Key) (kid : JVal) (hnokid : pyGet headers "kid" = .ok .null) (halg : pyGetItemStr headers "alg" = .ok (.str alg))
     (h : guessKey P E K (.base (.set ks)) headers true = .ok (k, some kid)) :
     ∃ k0 ∈ pickCandidates E.algKeys ks alg, ensureKid P K k0 = .ok k ∧ k.kid = kid ∧ kid ≠ .null := by
-  simp only [guessKey, bind_eq_ok, hnokid, Except.ok.injEq, exists_eq_left', JVal.truthy, Bool.not_false,
+  simp only [guessKey, guessKeyBase, pickRandom, bind_eq_ok, hnokid, Except.ok.injEq, exists_eq_left', JVal.truthy, Bool.not_false,
     Bool.and_true, if_true, halg, pure_eq_ok, ensure_eq_ok] at h
   obtain ⟨_, _, i, _, h2⟩ := h
   split at h2
